@@ -75,7 +75,7 @@ class Target:
 
 class Resolution:
     __slots__ = ('targets', 'externals', 'unresolved', 'fallback', 'ctor_of',
-                 'via')
+                 'via', 'via_frame')
 
     def __init__(self):
         self.targets: List[Target] = []
@@ -84,6 +84,7 @@ class Resolution:
         self.fallback = False
         self.ctor_of: List[str] = []   # class qnames instantiated
         self.via = None                # synthetic call to inline instead
+        self.via_frame = None
 
     def names(self):
         return [t.func.qname for t in self.targets] + self.externals
